@@ -1497,6 +1497,7 @@ class Stream(AbstractStream):
         elif N_streams == 1:
             if energy_balance:
                 self.copy_like(streams[0])
+                if Q: self.H += Q
             else:
                 self._imol.mix_from([streams[0]._imol])
         else:
